@@ -65,7 +65,11 @@ def s_value(tier):
     lens = st.one_of(st.integers(0, 1029), st.sampled_from([0, 1, 2, 3, 5, 6, 7, 255, 256, 257, 1028, 1029]))
     rnd = lens.flatmap(lambda n: st.binary(min_size=n, max_size=n))
     const = st.builds(lambda n, b: bytes([b]) * n, lens, st.sampled_from([0, 0xFF, 0xD3, 0x80, 0x01]))
-    return st.one_of(rnd, rnd, const).map(lambda b: {"data": b.hex()})
+    # byte strings whose remainder is already zero (a body with its checksum appended; 000000 is a value like any
+    # other) and bodies whose checksum is 000000
+    zero = st.deferred(lambda: _frames(tier))
+    zero_body = st.deferred(lambda: zero_crc_frames(tier)).map(lambda f: f[:-3])
+    return st.one_of(rnd, rnd, const, zero, zero_body).map(lambda b: {"data": b.hex()})
 
 
 def e_value(tier, shard, nshards):
